@@ -95,6 +95,19 @@ func (w *World) recvOracle(c *tibctesting.TestChain, p packettypes.Packet, h uin
 	if !pk.HasPacketReceipt(c.GetContext(), p.SourceChain, p.DestinationChain, p.Sequence) {
 		w.hit("C02", "accepted-receive-left-no-receipt "+key)
 	}
+	// C11: a relay chain either forwards (commitment for the next hop, no acknowledgement) or
+	// refuses (error acknowledgement, nothing to prove onwards)
+	if p.RelayChain == c.ChainName && p.DestinationChain != c.ChainName {
+		hasC := len(pk.GetPacketCommitment(c.GetContext(), p.SourceChain, p.DestinationChain, p.Sequence)) > 0
+		_, hasA := pk.GetPacketAcknowledgement(c.GetContext(), p.SourceChain, p.DestinationChain, p.Sequence)
+		if hasC && hasA {
+			w.hit("C11", "relay-refused-packet-but-left-forwarding-commitment "+key)
+			w.hit("C13", "relay-refused-packet-but-left-forwarding-commitment "+key)
+		}
+		if !hasC && !hasA {
+			w.hit("C11", "relay-accepted-packet-but-neither-forwarded-nor-answered "+key)
+		}
+	}
 	w.cleanMonotone(c)
 }
 
